@@ -5,5 +5,7 @@ CONSTANTS
   BackSeq <- MCBackSeq
   MethodExcluded = FALSE
   PurgeEvictsLive = FALSE
+  ExpiresIgnored = FALSE
   MaxOps = 12
+  MaxTimeouts = 1
 INVARIANTS EmitInv
